@@ -1122,7 +1122,7 @@ func main() {
 	}
 	fw.Main(&fw.Prop{
 		ID:    "C05",
-		Level: "exhaustive",
+		Level: "exploration",
 		Rule: "every cell of four finite families is instantiated as a one-use VCL program: (B1) every key of __generator__/predefined.yml x {get,set,unset} x 9 scopes, (B2) every key of __generator__/builtin.yml x each declared signature x 9 scopes x {expression, statement} " +
 			"(thorough: also one argument too few / too many), (B3) restart, error, esi, synthetic, synthetic.base64 and return(<9 actions>) x 9 scopes, (A) 15 assignment + 8 comparison operators x left type x right type x {literal, local, predefined}, " +
 			"(P, thorough) the B families under all 36 two-scope `@scope:` annotations (lint only). Each program is linted by the real linter in the cell's scope (accept = no ERROR diagnostic on the line of the one-use statement), the verdict is compared with the reference " +
